@@ -218,6 +218,7 @@ struct Shm
    volatile int pass;
    volatile int finished;
    char pad[8];
+   char lastSan[192];          // the sanitizer report that was being printed most recently ("description:access:function"), see __asan_on_error
 };
 
 static Shm* g_myshm = nullptr;
@@ -325,10 +326,13 @@ extern "C" {
 static char g_asan_report[512];
 extern "C" void __asan_on_error()
 {
-   if(g_asan_report[0]) return;   // keep the first report of a case
    char fn[256];
    fn[0] = 0;
    __sanitizer_symbolize_pc(__asan_get_report_pc(), "%f", fn, sizeof fn);
+   // the hook runs before the runtime prints (describes) the error; the runtime can die in that step (internal CHECK failures after heap corruption):
+   // leave the current report where the parent finds it
+   if(g_myshm) snprintf(g_myshm->lastSan, sizeof g_myshm->lastSan, "%s:%s:%s", __asan_get_report_description(), __asan_get_report_access_type() ? "write" : "read", fn);
+   if(g_asan_report[0]) return;   // keep the first report of a case
    snprintf(g_asan_report, sizeof g_asan_report, "%s:%s:%s", __asan_get_report_description(),
             __asan_get_report_access_type() ? "write" : "read", fn);
 }
@@ -464,7 +468,7 @@ inline RunResult run_parallel(uint64_t N, const CaseFn& fn, const DescFn& descri
                   if(opt.deadline > 0 && (k & 15) == 0 && now_s() > opt.deadline) { stopped = true; break; }
                   shm[w].idx = idx;
                   shm[w].sub = 0;
-                  shm[w].seq++;
+                  shm[w].seq++; shm[w].lastSan[0] = 0;
                   if((k & 7) == 7) ctx.flushDelta();
                   uint64_t d = 0;
                   try
@@ -602,6 +606,14 @@ inline RunResult run_parallel(uint64_t N, const CaseFn& fn, const DescFn& descri
             std::string site = crash_site(frames);
             if(signo)
                sig = "crash:sig" + std::to_string(signo) + ":" + site;
+            else if(WIFEXITED(st) && WEXITSTATUS(st) == 1 && shm[w].lastSan[0])
+            {
+               // exit code 1 = the sanitizer runtime called Die() although errors are recoverable: it failed while printing the report the hook recorded last
+               std::string r(shm[w].lastSan, strnlen(shm[w].lastSan, sizeof shm[w].lastSan));
+               size_t p1 = r.find(':'), p2 = p1 == std::string::npos ? p1 : r.find(':', p1 + 1);
+               sig = "asan:" + (p2 == std::string::npos ? r : r.substr(0, p2 + 1) + short_fn(r.substr(p2 + 1)));
+               detail = "the sanitizer runtime died (exit 1) while printing this report; ";
+            }
             else
                sig = "abnormal-exit:" + std::to_string(WIFEXITED(st) ? WEXITSTATUS(st) : -1);
             if(sigsuffix) sig += sigsuffix(idx, sub);
